@@ -668,9 +668,17 @@ def op_report(ctx: Ctx, i, op):
     cfg = st["cfg"]
     outdir = ctx.root / op["dir"]
     reads_before = len(ctx.clock.reads)
-    with Quiet():
-        mgr.prepare_results("proj", "note", "auth", "iter")
-        mgr.write_output_files(outdir, op.get("suffix", ""))
+    try:
+        with Quiet():
+            mgr.prepare_results("proj", "note", "auth", "iter")
+            mgr.write_output_files(outdir, op.get("suffix", ""))
+    except Exception as e:  # noqa: BLE001
+        # e.g. a report requested while an out-of-window height is left on the object (C13 histories only)
+        ctx.bump(f"report_raised:{type(e).__name__}")
+        ctx.log.add("report", op.get("suffix"), ["raised", type(e).__name__])
+        if ctx.prop in ("C12", "C19"):
+            ctx.violation(Violation(ctx.prop, "report_raised", f"{type(e).__name__}: {e} after {ctx.shape[:-1]}", site="report"), i)
+        return
     files = _read_outputs(outdir)
     ctx.log.add("report", op.get("suffix"), _normalise_outputs(files))
     oc = outcome_class(cfg, st["last"])
